@@ -96,6 +96,8 @@ func (e *Engine) verifyFunc(pkgPath, key string) (rep FuncReport) {
 	}
 	e.curTop = f
 	e.topFns[f.name] = f
+	nonlinearOK = ct.Opts["nonlinear"] != ""
+	defer func() { nonlinearOK = false }()
 	before := len(e.obls)
 	defer func() {
 		if r := recover(); r != nil {
